@@ -474,6 +474,52 @@ class Interp:
             self._log("unordered-to-unclassified-native", _qn(fn))
         return args
 
+    def trampolines(self, classes=None):
+        """Context manager: while active, the methods that repository classes
+        *define* and that are reached through a native dispatcher (pymbolic's
+        ``Mapper.__call__``/``rec`` -> ``map_*``) re-enter the interpreter
+        instead of running natively.  Needed where what happens *inside*
+        those methods matters (C17: set iteration order)."""
+        import contextlib
+        import sys as _sys
+
+        interp = self
+
+        if classes is None:
+            import pymbolic.mapper as pm
+            classes = []
+            for mname, mod in list(_sys.modules.items()):
+                if not mname.startswith(self.repo_prefixes) or mod is None:
+                    continue
+                for obj in list(vars(mod).values()):
+                    if isinstance(obj, type) and obj.__module__ == mname \
+                            and issubclass(obj, pm.Mapper):
+                        classes.append(obj)
+
+        @contextlib.contextmanager
+        def cm():
+            saved = []
+            try:
+                for cls in classes:
+                    for name, f in list(vars(cls).items()):
+                        if not isinstance(f, types.FunctionType) or \
+                                not interp.is_repo_function(f) or \
+                                f in interp.native_only:
+                            continue
+
+                        def tramp(*a, __f=f, **k):
+                            return interp.call_repo_function(__f, a, k)
+                        tramp.__name__ = f.__name__
+                        tramp.__qualname__ = f.__qualname__
+                        tramp.__wrapped_repo__ = f
+                        saved.append((cls, name, f))
+                        setattr(cls, name, tramp)
+                yield
+            finally:
+                for cls, name, f in saved:
+                    setattr(cls, name, f)
+        return cm()
+
     def exec_region(self, fn, start_marker, end_marker, variables):
         """Interpret the top-level statements of repository function *fn*
         that lie between two marker comments of its source (a mechanically
